@@ -56,6 +56,8 @@ type Gen struct {
 	ctCache        map[*ssa.Function]ctEntry
 	mapNonNil      map[string][]string
 	boxNonNil      map[string][]string
+	oldSyms        map[string]*symEntry // symbol table of the pinned tree (-symtab)
+	renameCache    map[*ssa.Function]map[string]string
 }
 
 type loopStmt struct {
@@ -363,14 +365,15 @@ func (g *Gen) newFuncGen(fn *ssa.Function, ct *Contract, props []string) *FuncGe
 }
 
 type outIndex struct {
-	Obligations []*Obligation       `json:"obligations"`
-	Functions   []string            `json:"functions"`
-	Notes       map[string][]string `json:"notes"`
-	BindErrors  []string            `json:"bind_errors"`
-	Contracts   int                 `json:"contracts"`
-	Externs     []string            `json:"externs"`
-	Unbound     []string            `json:"unbound"`
-	Extra       map[string]any      `json:"extra,omitempty"`
+	Obligations []*Obligation        `json:"obligations"`
+	Functions   []string             `json:"functions"`
+	Notes       map[string][]string  `json:"notes"`
+	BindErrors  []string             `json:"bind_errors"`
+	Contracts   int                  `json:"contracts"`
+	Externs     []string             `json:"externs"`
+	Unbound     []string             `json:"unbound"`
+	Extra       map[string]any       `json:"extra,omitempty"`
+	Symtab      map[string]*symEntry `json:"symtab,omitempty"`
 }
 
 func main() {
@@ -381,6 +384,7 @@ func main() {
 	dump := flag.Bool("dump", false, "print SSA of selected functions")
 	frameF := flag.Bool("frames", false, "print inferred frames of selected functions")
 	noSlice := flag.Bool("noslice", false, "write full (unsliced) queries")
+	symtabF := flag.String("symtab", "", "symbol table of the pinned tree (baseline/symtab.json): tolerate renamed parameters/locals, inline helpers that are new")
 	flag.Parse()
 	if *out == "" {
 		fmt.Fprintln(os.Stderr, "need -out")
@@ -392,11 +396,14 @@ func main() {
 		fmt.Fprintln(os.Stderr, "load:", err)
 		os.Exit(2)
 	}
+	g.oldSyms = loadSymtab(*symtabF)
+	g.renameCache = map[*ssa.Function]map[string]string{}
 	var want []string
 	if *propsF != "" {
 		want = strings.Split(*propsF, ",")
 	}
 	idx := &outIndex{Notes: map[string][]string{}, Extra: map[string]any{}}
+	idx.Symtab = g.symtabOfTree()
 	g.bindContracts(idx)
 
 	type job struct {
@@ -406,6 +413,14 @@ func main() {
 	}
 	var jobs []job
 	for _, fn := range g.allFunctions() {
+		if g.isNewFunction(fn) {
+			if ct0, _ := g.contractFor0(fn); ct0 == nil {
+				// a helper that did not exist when the contracts were written: it is verified where it is
+				// called (executed inline there), not on its own with no precondition
+				idx.Notes[funcDisplayName(fn)] = append(idx.Notes[funcDisplayName(fn)], "new function without contract: verified through its call sites (inline), not on its own")
+				continue
+			}
+		}
 		ct, _ := g.contractFor(fn)
 		var props []string
 		if ct != nil {
